@@ -57,6 +57,20 @@ def r09_1(ctx: Ctx) -> None:
     ctx.check(ok, "R09.1", f, dele[0], "targets and recursive are forwarded", "extract() does not forward targets/recursive to _extract")
 
 
+def selection_scope(ctx: Ctx, f) -> list:
+    """_extract plus the private helpers of the class that it calls and that did not exist when the rules were written (a selection predicate extracted
+    from the loop): the rules about the selection look at all of them"""
+    from ..inline import known_functions
+    cls = ctx.prog.cls("SevenZipFile", "py7zr")
+    out = [f]
+    for c in q.calls(f):
+        if isinstance(c.func, ast.Attribute) and norm(c.func.value) == "self":
+            m = ctx.prog.method(cls, c.func.attr)
+            if m is not None and known_functions() and m.qname not in known_functions() and m not in out and any(a_ == "targets" or "target" in a_ for a_ in m.params):
+                out.append(m)
+    return out
+
+
 def member_loops(ctx: Ctx, f):
     """the loops of _extract over the members: (selection loop, registration loop, name of the set of unselected ids or None).
     One loop does both in the original code; the repaired code selects first (and asks for the password before anything is touched), records
@@ -65,8 +79,8 @@ def member_loops(ctx: Ctx, f):
     ctx.need(len(loops) in (1, 2), "member loop(s) of _extract not recognised")
     if len(loops) == 1:
         return loops[0], loops[0], None
-    sel = [l for l in loops if any(isinstance(x, ast.Compare) and isinstance(x.ops[0], ast.NotIn) and norm(x.comparators[0]) == "targets" for x in ast.walk(l))]
     reg = [l for l in loops if any(isinstance(x, ast.Call) and attr_tail(x) == "register_filelike" for x in ast.walk(l))]
+    sel = [l for l in loops if l not in reg and any(isinstance(x, ast.Call) and attr_tail(x) == "add" and isinstance(x.func.value, ast.Name) for x in ast.walk(l))]
     ctx.need(len(sel) == 1 and len(reg) == 1 and sel[0] is not reg[0] and sel[0].lineno < reg[0].lineno, "selection / registration loops of _extract not recognised")
     adds = [x for x in ast.walk(sel[0]) if isinstance(x, ast.Call) and attr_tail(x) == "add" and isinstance(x.func.value, ast.Name)]
     names = {x.func.value.id for x in adds}
@@ -90,7 +104,7 @@ def r09_2(ctx: Ctx) -> None:
             and isinstance(p.ast.value.args[1], ast.Constant) and p.ast.value.args[1].value is None
 
     conts = [n for n in walk(lp) if isinstance(n, ast.Continue)]
-    ctx.floor("R09.2", len(conts), 2, "continue statements (filter arms) in the member loop")
+    ctx.floor("R09.2", len(conts), 1 if len(selection_scope(ctx, f)) > 1 else 2, "continue statements (filter arms) in the member loop")
     for c in conts:
         cn = q.node_for(f, c)
         preds = cn.pred
@@ -113,6 +127,20 @@ def r09_2(ctx: Ctx) -> None:
                   "selected ones are dropped", construct="registration of unselected members")
     # the two arms
     tests = [n for n in walk(lp) if isinstance(n, ast.If) and any(isinstance(x, ast.Continue) for x in n.body)]
+    helpers = selection_scope(ctx, f)[1:]
+    if helpers and not any(isinstance(x, ast.Compare) and isinstance(x.ops[0], (ast.NotIn, ast.In)) and norm(x.comparators[0]) == "targets" for x in ast.walk(lp)):
+        # the selection predicate lives in a helper (positive form: `return name in targets [or any(name.startswith(t + "/") ...)]`): weaker, form-independent
+        # conditions on the helper; the exact shape of the arms is judged where the arms are written out in the loop
+        for h in helpers:
+            exact_h = any(isinstance(x, ast.Compare) and isinstance(x.ops[0], (ast.In, ast.NotIn)) and norm(x.comparators[0]) in h.params for x in walk(h.node))
+            prefix_h = any(isinstance(x, ast.Call) and attr_tail(x) == "startswith" for x in walk(h.node))
+            flags_h = any("is False" in norm(t.test) for t in walk(h.node) if isinstance(t, ast.If)) and any("is True" in norm(t.test) for t in walk(h.node) if isinstance(t, ast.If))
+            ctx.check(exact_h and prefix_h and flags_h, "R09.2", h, h.node, "selection helper: exact match, prefix match and the recursive flag are all consulted",
+                      f"{h.qname} (the selection predicate of _extract) does not consult the exact match, the '/'-prefix match and the recursive flag", construct="selection helper")
+        guard = any(isinstance(t.test, ast.BoolOp) and any(norm(v) == "targets is not None" for v in t.test.values) or norm(t.test) == "targets is not None" for t in tests) or \
+            any(any(norm(t_.test).startswith("targets is None") for t_ in walk(h.node) if isinstance(t_, ast.If)) for h in helpers)
+        ctx.check(guard, "R09.2", f, lp, "no filtering without targets", "the selection does not test `targets is not None`", construct="targets None guard")
+        return
     def is_member_name(e: ast.AST) -> bool:
         return norm(e).endswith(".filename") or q.derives_from(f, e, lambda x: isinstance(x, ast.Attribute) and x.attr == "filename")
 
@@ -214,7 +242,37 @@ def _selection_expr(ctx: Ctx, f: Func, atom: ast.AST):
                 c = comp_in(rets[0].value)
                 if c is not None:
                     return rets[0].value, c
+            # a predicate helper with several returns (`if folder.files is None: return True; if skip: if not any(...): return True; return False`):
+            # the selection part is the condition under which it returns True after the skip flag was consulted
+            for r in rets:
+                if isinstance(r.value, ast.Constant) and r.value.value is True:
+                    for cd, pol in q.facts_at(g, r):
+                        c = comp_in(cd)
+                        if c is not None:
+                            expr = cd if pol else ast.UnaryOp(op=ast.Not(), operand=cd)
+                            return expr, c
     return None, None
+
+
+def _helper_consults_skip(ctx: Ctx, f: Func, atom: ast.AST) -> bool:
+    """the predicate helper returns True for 'none selected' only under its skip flag, and the caller passes skip_notarget for it"""
+    if not isinstance(atom, ast.Call):
+        return False
+    for tq in shared.targets_of(ctx, f, atom):
+        g = ctx.res._func_by_q(tq)
+        if g is None:
+            continue
+        params = g.params[1:] if g.cls else g.params
+        for r in [n for n in walk(g.node) if isinstance(n, ast.Return) and isinstance(n.value, ast.Constant) and n.value.value is True]:
+            facts = q.facts_at(g, r)
+            if any("target_filepath" in norm(cd) for cd, _ in facts):
+                flags = [cd.id for cd, pol in facts if pol and isinstance(cd, ast.Name) and cd.id in params]
+                for fl in flags:
+                    i = params.index(fl)
+                    arg = atom.args[i] if i < len(atom.args) else next((k.value for k in atom.keywords if k.arg == fl), None)
+                    if arg is not None and norm(arg) == "skip_notarget":
+                        return True
+    return False
 
 
 def r09_4(ctx: Ctx) -> None:
@@ -234,8 +292,11 @@ def r09_4(ctx: Ctx) -> None:
             continue
         n_found += 1
         cd, pol, expr, comp = pred
+        via_helper = expr is not cd and isinstance(cd, ast.Call) and not any(x is comp for x in ast.walk(cd)) and isinstance(expr, (ast.UnaryOp, ast.Call, ast.Compare, ast.BoolOp)) \
+            and any(isinstance(r_, ast.Return) and isinstance(r_.value, ast.Constant) for tq in shared.targets_of(ctx, f, cd) for g_ in [ctx.res._func_by_q(tq)] if g_ is not None
+                    for r_ in walk(g_.node) if len([x for x in walk(g_.node) if isinstance(x, ast.Return)]) > 1)
         fl = [(norm(c_), p_) for c_, p_ in facts]
-        ctx.check(("skip_notarget", True) in fl, "R09.4", f, cont, "folder skip only when skipping is allowed", "a folder can be skipped although skip_notarget is False")
+        ctx.check(("skip_notarget", True) in fl or _helper_consults_skip(ctx, f, cd), "R09.4", f, cont, "folder skip only when skipping is allowed", "a folder can be skipped although skip_notarget is False")
         ok = len(comp.generators) == 1 and not comp.generators[0].ifs
         results = {}
         if ok:
@@ -250,7 +311,7 @@ def r09_4(ctx: Ctx) -> None:
                     ok = False
                     break
                 # the folder is skipped when the fact (cd, pol) holds; cd is `expr` itself or a call returning it
-                results[sel] = (v == pol)
+                results[sel] = (v == pol) if not via_helper else bool(v)
             if ok:
                 want = {(False, False): True, (True, False): False, (False, True): False, (True, True): False}
                 ok = results == want
@@ -351,10 +412,11 @@ def r09_8(ctx: Ctx) -> None:
     `name.startswith(target + "/")`, never a bare string prefix (target 'al' must not select 'alphabet.txt'; names in T that are not in
     the archive are ignored); (b) extract() strips the trailing slash of every target, so the member name is normalised by the same
     function before it is compared (a directory stored as 'logs/' is selectable by 'logs' and by 'logs/')."""
-    ex = shared.szf(ctx, "_extract")
+    ex0 = shared.szf(ctx, "_extract")
     pub = shared.szf(ctx, "extract")
     n_sw = 0
-    for c in q.calls(ex):
+    scope = selection_scope(ctx, ex0)
+    for ex, c in [(g, c) for g in scope for c in q.calls(g)]:
         if attr_tail(c) != "startswith" or not c.args:
             continue
         # only prefix tests against an element of `targets`
@@ -378,6 +440,7 @@ def r09_8(ctx: Ctx) -> None:
         ctx.check(bounded, "R09.8", ex, c, "recursive selection tests a '/'-bounded prefix",
                   f"`{norm(c)}` takes a bare string prefix of the member name as 'beneath the target' (`{norm(tv)}` without a separator): targets 'al' or 'b' select "
                   "'alphabet.txt' / 'beta.bin', and a name in T that is not in the archive is not ignored", construct="recursive prefix test")
+    ex = ex0
     if n_sw == 0:
         # another correct form: some ancestor of the member name is a target (`any(str(p) in targets for p in PurePath(name).parents)`)
         anc = any(isinstance(n, ast.Attribute) and n.attr == "parents" for n in walk(ex.node)) and \
@@ -388,8 +451,19 @@ def r09_8(ctx: Ctx) -> None:
     strips = [c for c in q.calls(pub) if attr_tail(c) == "remove_trailing_slash"]
     if strips:
         tests = [n for n in walk(ex.node) if isinstance(n, ast.Compare) and len(n.ops) == 1 and isinstance(n.ops[0], (ast.In, ast.NotIn)) and norm(n.comparators[0]) == "targets"]
-        ctx.floor("R09.8", len(tests), 2, "membership tests against targets in _extract")
-        for t in tests:
+        if not tests and len(scope) > 1:
+            # the membership tests live in a selection helper: the NAME ARGUMENT handed to it is the normalised one
+            hcalls = [c for c in q.calls(ex) if isinstance(c.func, ast.Attribute) and any(c.func.attr == h.name for h in scope[1:])]
+            ctx.floor("R09.8", len(hcalls), 1, "calls of the selection helper in _extract")
+            for c in hcalls:
+                ok = any(q.derives_from(ex, a_, lambda e: isinstance(e, ast.Call) and attr_tail(e) == "remove_trailing_slash") for a_ in c.args) or \
+                    any(isinstance(x, ast.Call) and attr_tail(x) == "remove_trailing_slash" for h in scope[1:] for x in walk(h.node))
+                ctx.check(ok, "R09.8", ex, c, "member name normalised like the targets before the membership test",
+                          f"`{norm(c)}` is handed the member name as stored while extract() has removed the trailing '/' of the targets", construct="membership via helper")
+            tests = None
+        if tests is not None:
+            ctx.floor("R09.8", len(tests), 2, "membership tests against targets in _extract")
+        for t in tests or []:
             ok = q.derives_from(ex, t.left, lambda e: isinstance(e, ast.Call) and attr_tail(e) == "remove_trailing_slash")
             ctx.check(ok, "R09.8", ex, t, "member name normalised like the targets before the membership test",
                       f"`{norm(t)}` compares the member name as stored with targets whose trailing '/' extract() has removed: a directory member stored as 'logs/' can be "
